@@ -226,11 +226,13 @@ class Result:
         os.makedirs(os.path.join(VERIF, "evidence"), exist_ok=True)
         with open(os.path.join(VERIF, "evidence", self.prop + ".json"), "w") as f:
             json.dump(ev, f, indent=1)
-        seen = set()
-        for key, what, inst in self.known:
-            if key not in seen:
-                seen.add(key)
-                print("KNOWN-FINDING: property=%s %s" % (self.prop, what))
+        # every listed (unrepaired) finding of this property is reported on every run; whether this run's
+        # slice reproduced it is stated
+        reproduced = set(key for key, _, _ in self.known)
+        for f in known_findings():
+            if f.get("status") == "known" and f.get("property") == self.prop:
+                print("KNOWN-FINDING: property=%s %s%s" % (self.prop, f.get("what", f["key"]),
+                      " [reproduced in this run]" if f["key"] in reproduced else " [not reached by this run's slice]"))
         # every distinct violation key of this run (the report below is limited to 20)
         try:
             os.makedirs(WORK, exist_ok=True)
